@@ -42,7 +42,7 @@ const (
 
 var prefixes = []string{goodMod + "@" + goodVers + "/", "example.com/n@v1.0.0/", "Example.com/m@v1.0.0/", "", goodMod + "@" + goodVers, goodMod + "@v1.0.1/"}
 
-var paths = []string{"a", "A", "a/b", "a/", "a//b", "./a", "..", "../x", "../../x", "/abs", "a\\b", "", "go.mod", "GO.MOD", "sub/go.mod", "sub/GO.MOD", "LICENSE", "con", "é", "K", "k", "a/b/", "x.", "sub/", "σ", "ς", "a/../b", "sub/x.go"}
+var paths = []string{"a", "A", "a/b", "a/", "a//b", "./a", "..", "../x", "../../x", "/abs", "a\\b", "", "go.mod", "GO.MOD", "sub/go.mod", "sub/GO.MOD", "LICENSE", "con", "é", "K", "k", "\u212a", "\u017f", "s", "a/b/", "x.", "sub/", "σ", "ς", "a/../b", "sub/x.go"}
 
 type ent struct {
 	name    string
